@@ -82,3 +82,51 @@ def performMove (s : State) (mv : Move) : Option (Except MoveErr State) :=
     fullmove := if us == .black then s.fullmove + 1 else s.fullmove })
 
 end Wee
+
+/-! ## Compiled fast path (`@[csimp]`)
+
+Nothing below changes a definition: `attackMap` is proved EQUAL to a version with two unboxed
+`UInt64` accumulators (no pair allocated per attacked square); only the code generator uses it. -/
+namespace Wee.Fast
+open Wee
+
+/-- `attackMap` with two `UInt64` accumulators instead of a pair -/
+def attackMapFast (m : PieceMap) (c : Color) : UInt64 × UInt64 :=
+  let occ := m.occ
+  let own := m.colorOcc c
+  let all := Piece.all.foldl (fun (acc : UInt64) p =>
+    (bitsOf (m.get c p)).foldl (fun (acc : UInt64) sq => acc ||| attacksOf c p sq occ) acc) 0
+  let pawn := (bitsOf (m.get c .pawn)).foldl (fun (acc : UInt64) sq => acc ||| attacksOf c .pawn sq occ) 0
+  (all &&& ~~~own, pawn &&& ~~~own)
+
+theorem inner_fold (a : Nat → UInt64) (isPawn : Bool) (l : List Nat) (acc : UInt64 × UInt64) :
+    l.foldl (fun (acc : UInt64 × UInt64) sq => (acc.1 ||| a sq, if isPawn then acc.2 ||| a sq else acc.2)) acc
+      = (l.foldl (fun (x : UInt64) sq => x ||| a sq) acc.1,
+         if isPawn then l.foldl (fun (x : UInt64) sq => x ||| a sq) acc.2 else acc.2) := by
+  induction l generalizing acc with
+  | nil => cases isPawn <;> simp
+  | cons x xs ih => rw [List.foldl_cons, ih]; cases isPawn <;> simp
+
+@[csimp] theorem attackMap_eq : @attackMap = @attackMapFast := by
+  funext m c
+  unfold attackMap attackMapFast
+  simp only [Piece.all, List.foldl_cons, List.foldl_nil]
+  simp only [inner_fold]
+  simp
+
+/-! The `@[inline]` readers above were compiled before the lemma existed (their stored bodies still
+call the original `attackMap`); these literal copies (equal by `rfl`) are compiled after it. -/
+
+@[inline] def coloredAttacksFast (m : PieceMap) (c : Color) : UInt64 := (attackMap m c).1
+@[csimp] theorem coloredAttacks_eq : @coloredAttacks = @coloredAttacksFast := rfl
+
+@[inline] def coloredPawnAttacksFast (m : PieceMap) (c : Color) : UInt64 := (attackMap m c).2
+@[csimp] theorem coloredPawnAttacks_eq : @coloredPawnAttacks = @coloredPawnAttacksFast := rfl
+
+@[inline] def isCheckBFast (m : PieceMap) (c : Color) : Bool := bbAny (m.get c .king &&& coloredAttacks m c.opp)
+@[csimp] theorem isCheckB_eq : @isCheckB = @isCheckBFast := rfl
+
+@[inline] def isCheckFast (s : State) : Bool := isCheckB s.pieces s.turn
+@[csimp] theorem State.isCheck_eq : @State.isCheck = @isCheckFast := rfl
+
+end Wee.Fast
